@@ -29,6 +29,10 @@ CLAIMED = {
    technique="keyword-set extraction of the forced/avoid break predicates and of the sibling-resolution choice table (AST + constants) compared with the CSS Fragmentation sets + producer/consumer vocabulary agreement + division guard on the :nth() page arithmetic",
    text="Thin: decides that the forced and avoid break vocabularies are the CSS Fragmentation sets (column variants only in columns), that every break value the validators emit is classified, that forced beats avoid beats auto between siblings, and that :nth() page matching never divides by zero. Page geometry, actual break positions, orphans/widows and blank-page insertion are not decided.",
    ref="4 C12"),
+ "C15": dict(
+   technique="field-sensitive shared-memory taint over SSA with strong updates and callee mutation/alias summaries to a fixpoint (seeds: declared values of computer functions, style accessor results, package-level variables) + lock-region check for memo caches + AST classifier of every map iteration (order-insensitive patterns, table confirmed by reading) + scan for nondeterminism sources, goroutines, channels and run-time stores to package-level variables",
+   text="Decides necessary conditions of determinism and non-interference: no write into memory that outlives one computation (stylesheet values, initial values, globals) except mutex-guarded memo caches; every map iteration is order-insensitive by construction or a named, confirmed site; no clock/random/environment source, goroutine or channel. One reproduced defect (broken out-of-flow boxes re-laid in map order) is a known finding. Races inside dependencies, caller-supplied objects and three named not-decided map iterations (grid track sizing, ResumeStack.Unpack) are outside what is decided.",
+   ref="4 C15"),
  "C17": dict(
    technique="polynomial value numbering of the matrix routines over SSA (exact rationals, uninterpreted trig) compared with specification matrices + AST/SSA checks of vocabulary, arity, argument order, composition order and origin conjugation",
    text="Decides that each routine of package matrix, as a polynomial in its inputs, equals the specification matrix (and in-place operations equal right multiplication by the constructor), that SVG transform.applyTo right-multiplies by the specified matrix per kind with degrees converted to radians, and that the CSS/SVG plumbing (names, arities, argument positions, left-to-right composition, transform-origin conjugation, angle-unit table) is as specified. Float rounding is outside the abstraction; the matrix finally handed to the backend is not traced further than getMatrix/applyTo.",
